@@ -22,6 +22,7 @@
 (*   cut     the client hit the end of a truncated body (id, h, t)         *)
 (*   ret     an API call returned (id, call, ok, eq)                       *)
 (*   op      layer 2: an operation of scheme/reg starts (tc)               *)
+(*   lseek   layer 2: the operation seeks on its open response (tc)        *)
 (*   result  layer 2: the operation returned (eqret, eqstate: equal to     *)
 (*           the fault-free run)                                           *)
 (*   cancel  the caller cancelled the context of a logical request (id)    *)
@@ -145,6 +146,13 @@ PRead(m, e) == [m EXCEPT !.rd = NewRound(e.tc, ""), !.lastk = "", !.lasttr = e.t
 POp(m, e) == [m EXCEPT !.rd = NewRound(e.tc, ""), !.lastk = "", !.lasttr = e.tc, !.lastsig = "",
                        !.runn = 0, !.runfail = 0, !.rundrop = {}]
 
+\* layer 2: the operation announces a Seek of its own on the open response (not visible at the hosts): the
+\* same logical request goes on with a fresh round of offers and one attempt credited
+\* (the request that follows is the caller's, not a retry: lasth is cleared so that it proves nothing
+\* about an early end of the body the caller may never have read up to)
+PLSeek(m, e) == [m EXCEPT !.rd = NewRound(e.tc, m.lastsig), !.lastk = "seek", !.lasttr = e.tc, !.lasth = "",
+                          !.runn = IF @ > 0 THEN @ - 1 ELSE 0, !.rundrop = {}]
+
 \* -------------------------------------------------------------- attempts
 ShouldPrio(m, g, h) == m.prio[g] > m.prio[h]
 ShouldUp(m, g, h)   == m.prio[g] = m.prio[h] /\ h = m.up /\ g # m.up
@@ -267,6 +275,7 @@ PStep(m, e) ==
     [] e.ev = "seek"   -> PSeek(m, e)
     [] e.ev = "read"   -> PRead(m, e)
     [] e.ev = "op"     -> POp(m, e)
+    [] e.ev = "lseek"  -> PLSeek(m, e)
     [] e.ev = "att"    -> PAtt(m, e)
     [] e.ev = "cut"    -> PCut(m, e)
     [] e.ev = "ret"    -> PRet(m, e)
